@@ -157,8 +157,13 @@ def run(chk):
                                     magn = float(np.abs(10 - want_s).max()) + 10
                                     cmp(chk, f'{which} matching score is 10 - mean squared Mahalanobis distance to the candidate template', a.scores, want_s, prec, kap * condn * 8,
                                         dict(ctx, mag=magn), f'{which} scores')
-                                    if which == 'static' and len(case['match']) == 1:
-                                        pass
+                                    # asking again without new traces, then matching the same set a second time (every distance counted twice: the same mean)
+                                    a.compute_results()
+                                    cmp(chk, f'{which} matching score is 10 - mean squared Mahalanobis distance to the candidate template (results asked twice)', a.scores, want_s, prec, kap * condn * 8,
+                                        dict(ctx, mag=magn, history='run, compute_results'), f'{which} scores after a second compute_results()')
+                                    a.run(cm)
+                                    cmp(chk, f'{which} matching score is 10 - mean squared Mahalanobis distance to the candidate template (set matched twice)', a.scores, want_s, prec, kap * condn * 8,
+                                        dict(ctx, mag=magn, history='run, compute_results, run'), f'{which} scores after matching the same set twice')
             chk.traces_validated += 1
     finally:
         scared.Container._BATCH_SIZE = old_bs
@@ -227,10 +232,15 @@ def replay(chk, path):
         got = {tuple(np.asarray(x).shape): np.asarray(x, dtype='float64') for x in (a.templates, a.pooled_covariance, a.pooled_covariance_inv)}
         if cm is not None and len(case['match']):
             a.run(cm)
+            for step in rp.get('history', 'run').split(', ')[1:]:
+                a.compute_results() if step == 'compute_results' else a.run(cm)
             got[tuple(np.asarray(a.scores).shape)] = np.asarray(a.scores, dtype='float64')
         print('recorded expected:', exp.tolist(), 'recorded got:', rp['got'])
-        print(f'VIOLATION property=C14 replay={path}' if not any(g.shape == exp.shape and np.allclose(g, exp, rtol=1e-3, atol=1e-3) for g in got.values()) and
-              not any(np.asarray(a.templates, dtype='float64')[k].shape == exp.shape[1:] for k in range(1)) else 'no longer reproduced')
+        if not any(g.shape == exp.shape and np.allclose(g, exp, rtol=1e-3, atol=1e-3) for g in got.values()):
+            if not (exp.ndim == 2 and np.asarray(a.templates).shape[1:] == exp.shape[1:] and exp.shape[0] < np.asarray(a.templates).shape[0]):   # templates of non-empty classes only
+                print(f'VIOLATION property=C14 replay={path}')
+                return 1
+        print('no longer reproduced')
     finally:
         scared.Container._BATCH_SIZE = old
     return 0
